@@ -26,6 +26,7 @@ Rewrites applied by the extractor are a closed list (reported per unit):
   R3 body of an item marked `external`
   R6 argument-position `impl Trait` -> named type parameter
   R7 return value naming `-> T` -> `-> (r: T)` (Verus syntax for naming the result; no semantic change)
+  R8 restricted visibility `pub(crate)` / `pub(super)` -> `pub` (the unit is a single-file crate)
 Macros (format!, format_error!, debug_assert!, ...) are NOT rewritten: the unit prelude defines
 shim macro_rules! for them (R4/R5 of DESIGN.md are realised as macro shims).
 """
@@ -224,6 +225,20 @@ def extract(node, variant, report):
                 edits.append((ct[i].pos, ct[close].end, '', 'R1'))
                 rule('R1')
             i = close + 1
+    # R8 restricted visibility -> pub (single-file unit: no semantic effect)
+    ct = src.ct
+    i0 = src._pos2idx[it.start]
+    i1 = max(i for i, t in enumerate(ct) if t.pos < it.end)
+    k = i0
+    while k < i1:
+        t = ct[k]
+        if t.kind == 'ident' and t.text == 'pub' and ct[k + 1].text == '(' and ct[k + 2].text in ('crate', 'super', 'in', 'self'):
+            close = rsitems.match_close(ct, k + 1)
+            edits.append((ct[k + 1].pos, ct[close].end, '', 'R8'))
+            rule('R8')
+            k = close + 1
+            continue
+        k += 1
     if it.kind == 'fn':
         parts = rsitems.fn_parts(src, it)
         # R6 impl Trait in argument position
@@ -251,7 +266,7 @@ def extract(node, variant, report):
                         break
                     j += 1
                 bound = text[ct[idx + 1].pos:ct[j - 1].end]
-                name = 'ImplArg%d' % len(gens)
+                name = 'P' if not gens else 'P%d' % (len(gens) + 1)
                 gens.append('%s: %s' % (name, bound))
                 edits.append((t.pos, ct[j - 1].end, name, 'R6'))
                 rule('R6')
